@@ -1707,6 +1707,86 @@ def _shift(node: ast.AST, delta: int) -> None:
             n.end_lineno += delta
 
 
+def _all_functions(tree: ast.AST) -> dict:
+    """qualname -> node, nested functions included."""
+    out: dict = {}
+
+    def visit(n: ast.AST, prefix: str) -> None:
+        for c in ast.iter_child_nodes(n):
+            if isinstance(c, ast.ClassDef):
+                visit(c, prefix + c.name + '.')
+            elif isinstance(c, FUNC):
+                if prefix + c.name not in out:
+                    out[prefix + c.name] = c
+                visit(c, prefix + c.name + '.')
+            elif isinstance(c, (ast.If, ast.Try, ast.With, ast.For, ast.While)):
+                visit(c, prefix)
+
+    visit(tree, '')
+    return out
+
+
+def undo_renames(mod, sigs: typing.Optional[SignatureIndex] = None) -> list:
+    """A function of the reference tree that is gone while a new function of the *same scope* has the same normal form
+    (its own name aside) was renamed: it gets its reference name back, together with every reference to the new name in the
+    module.  Returns [(new name, reference qualname)]."""
+    ref_src = pinned_sources().get(mod.name)
+    if ref_src is None or ref_src == mod.source:
+        return []
+    try:
+        ref_tree = ast.parse(ref_src)
+    except SyntaxError:
+        return []
+    from . import core
+
+    core.strip_noops(ref_tree)
+    ref = _all_functions(ref_tree)
+    cur = _all_functions(mod.tree)
+    vanished = [q for q in ref if q not in cur]
+    fresh = [q for q in cur if q not in ref]
+    if not vanished or not fresh:
+        return []
+
+    def anonymous(node: ast.AST) -> str:
+        clone = ast.parse(ast.unparse(node)).body[0]
+        own = clone.name
+        clone.name = '__f__'
+        for x in ast.walk(clone):
+            if isinstance(x, ast.Name) and x.id == own:
+                x.id = '__f__'
+            elif isinstance(x, ast.Attribute) and x.attr == own:
+                x.attr = '__f__'
+        return nf_text(clone, sigs)
+
+    done = []
+    for v in vanished:
+        scope = v.rpartition('.')[0]
+        cands = [q for q in fresh if q.rpartition('.')[0] == scope]
+        if not cands:
+            continue
+        try:
+            want = anonymous(ref[v])
+            same = [q for q in cands if anonymous(cur[q]) == want]
+        except RecursionError:
+            continue
+        if len(same) != 1:
+            continue
+        new_name, old_name = cur[same[0]].name, ref[v].name
+        if any((isinstance(x, ast.Name) and x.id == old_name) or (isinstance(x, ast.Attribute) and x.attr == old_name) for x in ast.walk(mod.tree)) and not old_name.startswith('_'):
+            continue  # the reference name is in use for something else
+        cur[same[0]].name = old_name
+        for x in ast.walk(mod.tree):
+            if isinstance(x, ast.Name) and x.id == new_name:
+                x.id = old_name
+            elif isinstance(x, ast.Attribute) and x.attr == new_name:
+                x.attr = old_name
+            elif isinstance(x, ast.keyword) and x.arg == new_name:
+                pass
+        fresh.remove(same[0])
+        done.append((new_name, v))
+    return done
+
+
 def substitute_equivalent(mod, sigs: typing.Optional[SignatureIndex] = None) -> list:
     """For every function of ``mod`` whose text differs from the reference tree but whose normal form equals the normal form
     of the reference function: put the reference function (re-positioned at the current one's line) into the module tree.
